@@ -60,6 +60,41 @@ func (x *Exec) libModel(fr *Frame, st *State, ins ssa.Instruction, callee *ssa.F
 		}
 		set(r)
 		return true
+	case "encoding/json.Unmarshal":
+		// writes the value its second argument points to (and what that value owns), nothing else;
+		// the decoded value and the error are unconstrained
+		mi, ok := argVals[1].(*ssa.MakeInterface)
+		if !ok {
+			return false
+		}
+		pt, ok := underlying(mi.X.Type()).(*types.Pointer)
+		if !ok {
+			return false
+		}
+		if _, isArr := isArrayType(pt.Elem()); isArr {
+			return false
+		}
+		switch underlying(pt.Elem()).(type) {
+		case *types.Basic, *types.Slice, *types.Interface:
+		default:
+			return false // structs and maps: decoded in place, field by field: not modelled
+		}
+		if fr.spec {
+			panic(engErr("ghost code calls json.Unmarshal"))
+		}
+		p := x.val(fr, st, mi.X)
+		lv := x.ptrLVal(p, mi.X.Type())
+		x.frameCheckLVal(fr, st, lv, "json.Unmarshal target", ins.Pos())
+		x.havocLVal(st, lv)
+		if hn := x.lvHeapName(lv); hn != "" && !isFreshRefTerm(lv.ptr) {
+			st.markDirty(hn)
+		}
+		nt := vc.fresh("top", SInt)
+		vc.assert(le(st.top, nt))
+		st.top = nt
+		st.written["top"] = true
+		set(x.freshOf(st, "jerr", callee.Signature.Results().At(0).Type()))
+		return true
 	case "encoding/json.Marshal", "encoding/json.MarshalIndent":
 		// the encoding is a fresh byte slice holding valid UTF-8 ("String values encode as JSON
 		// strings coerced to valid UTF-8", encoding/json); content and error otherwise unconstrained
